@@ -266,15 +266,41 @@ Definition enc_name (x : name) : list Z := Z.of_nat (length x) :: x.
 Definition enc_names (l : list name) : list Z :=
   Z.of_nat (length l) :: concat (map enc_name l).
 
-Definition run_advertised (rc : role * config) : list Z :=
-  let m := advertised (fst rc) (snd rc) in
+Definition enc_ki (m : kexinit) : list Z :=
   enc_names (ki_kex m) ++ enc_names (ki_keys m) ++ enc_names (ki_enc_c2s m) ++
   enc_names (ki_enc_s2c m) ++ enc_names (ki_mac_c2s m) ++ enc_names (ki_mac_s2c m) ++
   enc_names (ki_comp_c2s m) ++ enc_names (ki_comp_s2c m).
 
-Definition run_negotiate (x : role * config * kexinit) : list Z :=
-  match negotiate (fst (fst x)) (snd (fst x)) (snd x) with
+Definition enc_result (x : result agreement) : list Z :=
+  match x with
   | Ok a => 0 :: enc_names [a_kex a; a_hostkey a; a_local_cipher a; a_remote_cipher a;
                             a_local_mac a; a_remote_mac a; a_local_comp a; a_remote_comp a]
   | Raise e => [1; exn_code e]
+  end.
+
+Definition run_advertised (rc : role * config) : list Z :=
+  enc_ki (advertised (fst rc) (snd rc)).
+
+Definition run_negotiate (x : role * config * kexinit) : list Z :=
+  enc_result (negotiate (fst (fst x)) (snd (fst x)) (snd x)).
+
+(* compact case files: the implementation's result is part of the input (names abbreviated by the
+   nm_<i> constants of Gen); the comparison itself is done here, on the byte lists.
+   Output [1] = equal; otherwise 0 :: the model's own encoding. *)
+Definition run_advertised_chk (x : role * config * kexinit) : list Z :=
+  let r := run_advertised (fst x) in
+  if zlist_eqb r (enc_ki (snd x)) then [1] else 0 :: r.
+
+Definition run_negotiate_chk (x : role * config * kexinit * result agreement) : list Z :=
+  let r := run_negotiate (fst x) in
+  if zlist_eqb r (enc_result (snd x)) then [1] else 0 :: r.
+
+(* one entry point so that a run needs a single batch of case files *)
+Inductive ccase :=
+  | CaseAdv (r : role) (c : config) (own : kexinit)
+  | CaseNeg (r : role) (c : config) (peer : kexinit) (impl : result agreement).
+Definition run_case (x : ccase) : list Z :=
+  match x with
+  | CaseAdv r c own => run_advertised_chk (r, c, own)
+  | CaseNeg r c peer impl => run_negotiate_chk (r, c, peer, impl)
   end.
